@@ -38,6 +38,20 @@ pub fn codec_of(name: &str) -> Option<Codec> {
     })
 }
 
+/// serde counterparts of the record family of C03 (schema P: a long, s string, n ["null","long"])
+#[derive(serde::Serialize)]
+struct SerP {
+    a: i64,
+    s: String,
+    n: Option<i64>,
+}
+/// second field of the wrong type: the first field is encoded before the error is detected
+#[derive(serde::Serialize)]
+struct BadP {
+    a: i64,
+    s: i64,
+}
+
 fn res(r: Result<(), ()>) -> Sexp {
     match r {
         Ok(()) => ok(vec![]),
@@ -98,6 +112,52 @@ fn run_history(schema: &Schema, codec: Codec, block_size: usize, marker: [u8; 16
                 results.push(match r {
                     Ok(_) => ok(vec![value_to_sexp(&v)]),
                     Err(_) => Sexp::tag("err", vec![value_to_sexp(&v)]),
+                });
+            }
+            "append-ser" => {
+                // (append-ser a #s n|(none)) : Writer::append_ser of a struct matching schema P
+                let Some(w) = writer.as_mut() else { results.push(Sexp::tag("no-writer", vec![])); continue };
+                let a = p[0].as_i64().unwrap_or(0);
+                let st = p[1].as_str_utf8().unwrap_or_default();
+                let n = p.get(2).and_then(|x| x.as_i64());
+                let v = apache_avro::types::Value::Record(vec![
+                    ("a".into(), apache_avro::types::Value::Long(a)),
+                    ("s".into(), apache_avro::types::Value::String(st.clone())),
+                    (
+                        "n".into(),
+                        match n {
+                            Some(k) => apache_avro::types::Value::Union(1, Box::new(apache_avro::types::Value::Long(k))),
+                            None => apache_avro::types::Value::Union(0, Box::new(apache_avro::types::Value::Null)),
+                        },
+                    ),
+                ]);
+                results.push(match w.append_ser(SerP { a, s: st, n }) {
+                    Ok(_) => ok(vec![value_to_sexp(&v)]),
+                    Err(_) => Sexp::tag("err", vec![value_to_sexp(&v)]),
+                });
+            }
+            "append-ser-bad" => {
+                let Some(w) = writer.as_mut() else { results.push(Sexp::tag("no-writer", vec![])); continue };
+                let a = p[0].as_i64().unwrap_or(0);
+                results.push(match w.append_ser(BadP { a, s: a }) {
+                    Ok(_) => ok(vec![]),
+                    Err(_) => err(),
+                });
+            }
+            "extend" => {
+                // (extend V...) : Writer::extend_from_slice (validates each value, then flushes)
+                let Some(w) = writer.as_mut() else { results.push(Sexp::tag("no-writer", vec![])); continue };
+                let mut vs = Vec::new();
+                for x in p {
+                    match sexp_to_value(x) {
+                        Ok(v) => vs.push(v),
+                        Err(e) => return bad(&e),
+                    }
+                }
+                let shown: Vec<Sexp> = vs.iter().map(value_to_sexp).collect();
+                results.push(match w.extend_from_slice(&vs) {
+                    Ok(_) => ok(shown),
+                    Err(_) => Sexp::tag("err", shown),
                 });
             }
             "flush" => {
